@@ -230,6 +230,19 @@ def apply_step(st: Store, sn: str, i: int, ev: dict, stp: str, res: dict, ctx: d
             yield out(st2, ("OK", tuple(x[1] for x in (snap or []))))
             return
     st2 = st.clone()
+    if op == "pop":
+        # a POP3 command line; only QUIT changes the store: it removes the messages marked so far
+        if ev["line"].upper().startswith("QUIT"):
+            mb = st2.mboxes["INBOX"]
+            gone = set(ev.get("marked_uids", ()))
+            mb.msgs = [m for m in mb.msgs if m.uid not in gone]
+        yield out(st2, ("OK",))
+        return
+    if op == "env_deliver":
+        for k in range(ev.get("n", 1)):
+            st2.deliver(ev["m"], ev.get("cids", [f"env{i}x{k}"])[k] if ev.get("cids") else f"env{i}x{k}", ev.get("unseen", True))
+        yield out(st2, ("OK",))
+        return
     try:
         if op == "noop" or op == "check":
             _sync(st2, sn)
